@@ -1192,6 +1192,73 @@ def run_bundlesize(case, seed, R):
     R.outcome(f'N={"2^%d+" % int(math.log2(N)) if N & (N - 1) else "2^%d" % int(math.log2(N))}')
 
 
+
+# ---------------------------------------------------------------------------------------------
+# object history of ONE Surface: its public attributes (pose R, position P, index function n, type) are reassigned between traces.
+# Differential oracle: the trace through the re-configured object equals, bit for bit, the trace through a FRESH surface constructed
+# with the current values (whatever a surface derives from its pose at construction time must follow the attribute).
+
+SOH_POSES = [None, [0.0, 5.0, 3.0], [10.0, 0.0, 0.0], [-4.0, 2.0, 7.0]]
+SOH_PS = [[0.0, 0.0, 10.0], [1.5, -2.0, 12.0]]
+
+
+def run_surface_history(case, seed, R):
+    kind, typ = case['shape'], case['typ']
+    seqs = case['sequence']
+    P0, S0 = bundle('quick', z0=-3.0)
+
+    def make(pose, pos, npr):
+        g = Geo({'shape': kind, 'P': pos, 'R': pose, 'typ': typ, 'n': npr}, seed)
+        return g, g.build(R)
+
+    g0, surf = make(SOH_POSES[seqs[0][0]], SOH_PS[seqs[0][1]], seqs[0][2])
+    if surf is FAILED:
+        return
+    first = True
+    for (ipose, ipos, npr) in seqs:
+        g, fresh = make(SOH_POSES[ipose], SOH_PS[ipos], npr)
+        if fresh is FAILED:
+            return
+        if not first:
+            # reassign the attributes of the LIVE object to what a fresh surface with the new values holds
+            for attr in ('R', 'P', 'n'):
+                try:
+                    setattr(surf, attr, getattr(fresh, attr))
+                except Exception as e:   # noqa
+                    R.violation('Surface:history:setattr', f'cannot assign Surface.{attr}: {e}')
+                    return
+        out = R.call(sm.raytrace, [surf], P0.copy(), S0.copy(), WVL, n_ambient=1.0, sig='raytrace:exception:history')
+        want = R.call(sm.raytrace, [fresh], P0.copy(), S0.copy(), WVL, n_ambient=1.0, sig='raytrace:exception:history', hygiene=False)
+        if out is FAILED or want is FAILED:
+            return
+        try:
+            ok = all(np.array_equal(np.asarray(a), np.asarray(b), equal_nan=True) for a, b in zip(out, want)) and len(out) == len(want)
+        except Exception:   # noqa
+            ok = False
+        R.expect(ok, 'Surface:history:stale-after-attribute-change' if not first else 'Surface:history:first-trace',
+                 f'trace through a {kind["kind"]} surface whose R / P / n were reassigned to pose {SOH_POSES[ipose]}, P {SOH_PS[ipos]}, n {npr} differs from the trace through a fresh surface with those values')
+        # and the re-configured object obeys the hop oracle of its CURRENT configuration
+        tally = new_tally()
+        trace_and_judge(R, [g], P0, S0, 1.0, tally, form='batch', prebuilt=[surf], hygiene=False)
+        report_tally(R, tally)
+        first = False
+    R.nontrivial(len(seqs) > 1)
+    R.outcome(f"history:{kind['kind']}:{typ}")
+
+
+def surface_history_cases(tier):
+    states = [(a, b, n) for a in range(len(SOH_POSES)) for b in range(len(SOH_PS)) for n in ((1.5, 1.7) if True else (1.5,))]
+    out = []
+    para, sph, pln, ell = {'kind': 'conic', 'c': 1 / 50, 'k': -1.0}, {'kind': 'sphere', 'c': -1 / 50}, {'kind': 'plane'}, {'kind': 'conic', 'c': 1 / 50, 'k': 0.5}
+    kinds = [(para, 'refl'), (sph, 'refr'), (pln, 'refr')] if tier == 'quick' else [(para, 'refl'), (ell, 'refr'), (sph, 'refr'), (pln, 'refl'), (pln, 'refr')]
+    for kind, typ in kinds:
+        for s0 in states:
+            for s1 in states:
+                if s0 != s1 and (tier == 'thorough' or sum(x != y for x, y in zip(s0, s1)) == 1 or (s0[0] == 0) != (s1[0] == 0)):
+                    out.append({'shape': kind, 'typ': typ, 'sequence': [list(s0), list(s1)] + ([list(s0)] if tier == 'thorough' else [])})
+    return out
+
+
 def bundlesize_cases(tier):
     """All bundle x prescription pairs up to HY_MAX (quick) / HY_MAX_T (thorough) rays with the repeated-call hygiene variants (they
     cost ~10 traces); beyond that a set of pairs that together contains every bundle and every prescription, one call each."""
@@ -1433,6 +1500,11 @@ def plan(tier, seed):
                   f'{21 if tier == "quick" else 31}^2 lattice scaled to 0.7 R (includes the axis) x the four directions, bundles travelling +z AND -z, x 2 poses (untilted, tilted+decentred) x '
                   '{reflect, refract (1,1.5), (1.5,1)}; plus six two-surface prescriptions over a pool of four large posed surfaces (mirror -> refractor met travelling -z, refractor -> mirror) '
                   'with both bundles; same hop oracle, misses excluded by the reference; outcome labels path<-128 / path>+128 count the rays whose reference path length is that long', reset=rs_),
+        ScopeUnit('surface_object_history', surface_history_cases(tier), run_surface_history,
+                  f'ONE Surface object traced, re-configured by assigning its public attributes R (4 poses incl. none), P (2 positions), n (2 indices) and traced again '
+                  '(quick: every ordered pair of configurations differing in one attribute or switching between untilted and tilted; thorough: every ordered pair, then back) '
+                  'x {paraboloid mirror, refracting sphere, refracting plane}: the second trace equals bit for bit the trace through a fresh Surface built with the current values '
+                  'and obeys the hop oracle of the current configuration', reset=rs_),
         ScopeUnit('tilt', tilt_cases(tier), run_tilt,
                   'tilt magnitude alphabet {0, 1e-12, 1e-9, 4e-7, 1e-6, 1e-3, 1, 10, 90} deg x axis patterns {z, y, x, (y,x), (z,y,x)} x forms {angle list, 3x3 matrix[, tuple, negative '
                   'angles in thorough]} x {plane, sphere, parabola} at the origin x {reflect, refract (1,1.5)}: the 100-ray bundle through the hop oracle, Surface.R to the rounding bound '
